@@ -213,10 +213,12 @@ def check_normalize(case, ctx):
                     ctx.label("insertion-at-parameter-zero")
             if pickN is None or pickF is None or pickN[1:] != pickF[1:]:
                 raise Skip("no admissible insertion")
+            undo = []
             for o, pk in ((N, pickN), (Fo, pickF)):
                 params, nums = [None] * pd, [0] * pd
                 params[k], nums[k] = pk[0], pk[2]
                 operations.insert_knot(o, params, nums)
+                undo.append((o, list(params), list(nums)))
         else:
             dens = [0] * pd
             dens[k] = 1
@@ -229,6 +231,16 @@ def check_normalize(case, ctx):
         N.delta = 1.0 / n
         Fo.delta = 1.0 / n
         ctx.check(_rel_eq([list(p) for p in N.evalpts], [list(p) for p in Fo.evalpts]), "normalize-op-shape", "shape after %s differs between the two settings" % op)
+        if op == "insert" and case["n"] % 2 == 0:
+            # ... and the knots just inserted are removed again, in both settings
+            for o, params, nums in undo:
+                operations.remove_knot(o, params, nums)
+            ctx.label("insert-then-remove")
+            ctx.check(build.sizes_of(N) == build.sizes_of(Fo), "normalize-op-sizes", "insert then remove: sizes %r vs %r" % (build.sizes_of(N), build.sizes_of(Fo)))
+            for kk in range(pd):
+                mapped = [aff[kk][0] + aff[kk][1] * x for x in build.kvs_of(N)[kk]]
+                ctx.check(_rel_eq(mapped, build.kvs_of(Fo)[kk], 1e-12), "normalize-op-knots", "insert then remove: knot vectors do not correspond in direction %d" % kk)
+            ctx.check(_rel_eq([list(p) for p in N.evalpts], [list(p) for p in Fo.evalpts], 1e-7), "normalize-op-shape", "shape after insert then remove differs between the two settings")
     elif op == "split" and pd < 3:
         k = case["k"] % pd
         ins = (["in"] + list(case["ins"][1:3])) if case["ins"][0] in ("other", "near", "decimal", "again", "within") else case["ins"][:3]
